@@ -204,6 +204,12 @@ def fptr_cases(tier):
             yield (f"arrdim:{dims}:{t}", f"int\tft_test(int n)\n{{\n\t{t}{tabs}buf{dims};\n\n\tbuf[0] = n;\n\treturn (n);\n}}\n"
                    if t != "int" else f"int\tft_test(int n)\n{{\n\tint\t\tbuf{dims};\n\n\tbuf[0] = n;\n\treturn (n);\n}}\n")
         yield (f"arrdim:global:{dims}", f"static char\tg_buf{dims};\n\nint\tmain(void)\n{{\n\treturn (0);\n}}\n")
+    # calls through a function pointer as statements, followed by other statements
+    head = "int\tft_apply(void (*f)(int, char *), int n, char *p)\n{\n"
+    for k, body in enumerate(("\t(*f)(n, &p[n]);\n\tn = n + 1;\n\treturn (n);\n", "\t(*f)(n, p);\n\t(*f)(1, \"s\");\n\treturn (n);\n",
+                              "\tint\ti;\n\n\ti = 0;\n\t(*f)(i, &p[i]);\n\twhile (i < n)\n\t\t(*f)(i++, p);\n\treturn (i);\n",
+                              "\tif (n)\n\t\t(*f)(n, p);\n\telse\n\t\t(*f)(0, p);\n\tf(n, p);\n\treturn (0);\n")):
+        yield (f"fptr:call:{k}", head + body + "}\n")
     for lp in ("int\t\t(*cmp)(int, int);", "void\t(*f)(void *);", "char\t*(*conv)(const char *, int);"):
         yield (f"fptr:local:{lp[:8]}", "int\tft_test(int n)\n{\n\t" + lp + "\n\n\treturn (n);\n}\n")
 
